@@ -87,11 +87,27 @@ BoundaryOK(H, s, dom, t, c) ==
   /\ t \in H.file[c]
   /\ Blame(H, t) \notin dom
 
-(* Shape of the known finding (DESIGN 7): the line is blamed on a merge that *)
-(* kept it, although one parent has it (untouched) and another has not      *)
+(* Shape of the known finding (DESIGN 7): the line is blamed on a merge that  *)
+(* kept it although a parent a still has it; another parent b DELETED it     *)
+(* (the introducing commit is an ancestor of b) and a's side left the file   *)
+(* UNTOUCHED (no commit reachable only through a changed the file), so the   *)
+(* walk over file-changing commits never compares the merge with a's side.   *)
+Untouched(H, c) == IF Len(H.par[c]) = 0 THEN H.file[c] = {} ELSE \A q \in ParentSet(H.par, c) : H.file[q] = H.file[c]
 MergeKeepsLine(H, t, c) ==
   /\ c \in DOMAIN H.par /\ Len(H.par[c]) >= 2 /\ t \in H.file[c]
-  /\ \E a, b \in ParentSet(H.par, c) : t \in H.file[a] /\ t \notin H.file[b]
+  /\ \E a, b \in ParentSet(H.par, c) :
+        /\ t \in H.file[a] /\ t \notin H.file[b]
+        /\ Blame(H, t) \in Ancestors(H.par, b)
+        /\ \A d \in Ancestors(H.par, a) \ Ancestors(H.par, b) : Untouched(H, d)
+
+(* Shape of a second finding (found by this check): an out-of-domain commit  *)
+(* is a parent of two in-domain ancestors of the start commit.  The walk     *)
+(* counts it as an unresolved root once per edge, believes nothing is left   *)
+(* to trace and stops early: lines still in flight keep their initial state  *)
+(* (unresolved, at the start commit).                                        *)
+UnresolvedRootCountedTwice(H, s, dom) ==
+  \E o \in (DOMAIN H.par) \ dom :
+     Cardinality({c \in dom \cap Ancestors(H.par, s) : o \in ParentSet(H.par, c)}) >= 2
 
 LineVerdict(H, s, dom, e) ==
   IF e.c \notin DOMAIN H.par THEN "OriginIsACommitOfTheHistory"
@@ -109,4 +125,8 @@ AnnotateVerdict(H, s, dom, out) ==
 OnlyMergeKeepsLine(H, s, dom, out) ==
   \A i \in 1..Len(out) :
      LineVerdict(H, s, dom, out[i]) # "ok" => (out[i].ok /\ MergeKeepsLine(H, out[i].t, out[i].c))
+OnlyStoppedEarly(H, s, dom, out) ==
+  /\ UnresolvedRootCountedTwice(H, s, dom)
+  /\ \A i \in 1..Len(out) :
+        LineVerdict(H, s, dom, out[i]) # "ok" => (~out[i].ok /\ out[i].c = s)
 =============================================================================
